@@ -585,7 +585,27 @@ class SpawnRunner:
             argv = [self.tree.path(prog)]
         env["LD_PRELOAD"] = TOOLS["shim"]
         h.clear_trace()
-        rc, out, err = sandbox.run_proc(argv, env, stdin=stream)
+        sw = sc.get("swap")
+        if sw:
+            # another process renames a regular qmailq-owned file over the name right after the spawner opened the (foreign-owned) file:
+            # what counts is the file the spawner holds open, not what the name refers to a moment later
+            src = os.path.join(h.dir, "swap-src")
+            c = b"MESSAGE swapped-in owner %d\n" % self.quid
+            with open(src, "wb") as f:
+                f.write(c)
+            os.chown(src, self.quid, -1)
+            self.good[c] = sw["victim"]
+            env["VSHIM_SWAPOPEN"] = "%s|%s|%s" % (prog, sw["victim"], src)
+        try:
+            rc, out, err = sandbox.run_proc(argv, env, stdin=stream)
+        finally:
+            if sw:
+                p_ = os.path.join(self.mess, sw["victim"])
+                if os.path.exists(p_):
+                    os.unlink(p_)
+                self.regular(sw["victim"], 0 if sw["owner"] == "root" else h.uids[sw["owner"]])
+                if os.path.exists(src):
+                    os.unlink(src)
         cls = ["spawn_" + which, "spawn_tail_%d" % sc.get("tail", 0)]
         near = False
         for d, m, s, r in cmds:
@@ -706,6 +726,13 @@ def spawn_sweep():
                 out.append({"part": "spawn", "which": which, "cmds": cmds, "tail": 2, "child": {"exit": ex, "out": j(o)}})
         out.append({"part": "spawn", "which": which, "cmds": [{"d": 1, "m": j(b"1/1"), "s": j(b"s@x"), "r": j(b"r@host")}], "tail": 0,
                     "child": {"exit": 0, "kill": 11, "out": j(b"dying\n")}})
+        # the name of a foreign-owned message file is re-pointed at a good file between the spawner's open() and its next call
+        for victim in ("4/4", "3/3"):
+            for cmds in ([{"d": 1, "m": j(victim.encode()), "s": j(b"s@x"), "r": j(b"r@host")}],
+                         [{"d": 2, "m": j(b"1/1"), "s": j(b"s@x"), "r": j(b"r@host")}, {"d": 3, "m": j(victim.encode()), "s": j(b"s@x"), "r": j(b"r@host")},
+                          {"d": 4, "m": j(b"2/25"), "s": j(b"s@x"), "r": j(b"r@host")}]):
+                out.append({"part": "spawn", "which": which, "cmds": cmds, "tail": 0, "child": {"exit": 0, "out": j(b"Kok\0" if which == "r" else b"ok\n")},
+                            "swap": {"victim": victim, "owner": "a" if victim == "4/4" else "root"}})
         out.append({"part": "spawn", "which": which, "cmds": [{"d": 1, "m": j(b"1/1"), "s": j(b"S" * 10000), "r": j(b"R" * 10000 + b"@" + b"h" * 10000)},
                                                                {"d": 2, "m": j(b"7" * 10000), "s": j(b"s"), "r": j(b"r@h")}], "tail": 5,
                     "child": {"exit": 0, "out": j(b"ok")}})
